@@ -99,6 +99,45 @@ pub fn with_layout<T: Clone>(logical: &ArrayD<T>, layout: Layout, junk: T, src: 
     a
 }
 
+/// memory layout chosen for a case: the layout and the entropy that fixes its strides / permutation
+pub type Lay = (Layout, u64);
+
+pub const LAY_C: Lay = (Layout::C, 0);
+
+/// generator: standard layout in 3 of 4 cases
+pub fn pick_lay(src: &mut Src) -> Lay {
+    if src.chance(1, 4) {
+        (Layout::pick_nonstandard(src), src.next())
+    } else {
+        LAY_C
+    }
+}
+
+/// owned array with the logical contents of `logical` in the chosen layout
+pub fn realise<T: Clone>(logical: ArrayD<T>, lay: Lay, junk: T) -> ArrayD<T> {
+    if lay.0 == Layout::C {
+        return logical;
+    }
+    let ent = [lay.1, lay.1.rotate_left(17) ^ 0x9E37_79B9_7F4A_7C15, lay.1.rotate_left(31), lay.1.rotate_left(47), !lay.1, lay.1 ^ 0xABCD, lay.1 >> 3, lay.1 << 5];
+    let mut s = Src::new(&ent);
+    with_layout(&logical, lay.0, junk, &mut s)
+}
+
+/// 1-D variant of `realise` (axes): reversed strides or every-k-th slice
+pub fn realise1<T: Clone>(logical: ndarray::Array1<T>, lay: Lay, junk: T) -> ndarray::Array1<T> {
+    realise(logical.into_dyn(), lay, junk).into_dimensionality().expect("1-d layout")
+}
+
+/// deterministic layout choice derived from the content of an array (for helpers without an entropy source):
+/// non-standard in 1 of 4 cases
+pub fn lay_from_hash(h: u64) -> Lay {
+    let h = crate::common::splitmix(h);
+    if h % 4 != 0 {
+        return LAY_C;
+    }
+    ([Layout::F, Layout::Strided, Layout::Reversed, Layout::Permuted][((h >> 8) % 4) as usize], h >> 16)
+}
+
 pub fn is_standard<T>(a: &ArrayD<T>) -> bool {
     a.is_standard_layout()
 }
